@@ -36,10 +36,10 @@ package registry
 //@   props C11
 //@   safety C19
 //@   modifies A:string#
-//@   loop 1 invariant bounds: -1 <= i && i <= len(a)/2 - 1
-//@   loop 1 invariant swapped: forall(k, i < k && k <= len(a)/2 - 1 ==> a[k] == old(a[len(a)-1-k]) && a[len(a)-1-k] == old(a[k]))
-//@   loop 1 invariant untouched: forall(k, 0 <= k && k < len(a) && (k <= i || (len(a)/2 - 1 < k && k < len(a) - len(a)/2) || len(a)-1-i <= k) ==> a[k] == old(a[k]))
-//@   loop 1 decreases i + 1
+//@   loop 1 invariant bounds: -1 <= ix && ix <= len(a)/2 - 1
+//@   loop 1 invariant swapped: forall(k, ix < k && k <= len(a)/2 - 1 ==> a[k] == old(a[len(a)-1-k]) && a[len(a)-1-k] == old(a[k]))
+//@   loop 1 invariant untouched: forall(k, 0 <= k && k < len(a) && (k <= ix || (len(a)/2 - 1 < k && k < len(a) - len(a)/2) || len(a)-1-ix <= k) ==> a[k] == old(a[k]))
+//@   loop 1 decreases ix + 1
 //@   ensures reversed: forall(k, 0 <= k && k < len(a) ==> a[k] == old(a[len(a)-1-k]))
 
 //@ func registry.pkgInfoFromPath -> pkg, err
@@ -108,8 +108,8 @@ package registry
 //@   safety C19
 //@   modifies A:string#
 //@   requires lvl >= 0 && p.pkg != nil
-//@   loop 1 invariant idx: i >= 0
-//@   loop 1 decreases min2(len(pp), lvl + 1) - i
+//@   loop 1 invariant idx: ix >= 0
+//@   loop 1 decreases min2(len(pp), lvl + 1) - ix
 //@ define min2(a, b) = ite(a < b, a, b)
 
 //@ func registry.Registry.Imports$1
@@ -158,7 +158,7 @@ package registry
 //@   safety C19
 //@   modifies H:registry.Var#.Name, M:string:bool#
 //@   requires m != nil && m.conflicted != nil && varsNonNil(m)
-//@   loop 1 invariant counter: n >= 1
+//@   loop 1 invariant counter: ix >= 1
 //@   loop 1 invariant renamed-only: forall((*Var)(p), old(allocated(p)) ==> p.Name == old(p.Name) || (old(p.Name) == suggested && p.Name == suggested + "1"))
 //@   loop 1 invariant distinct-kept: (forall(i, j, 0 <= i && i < j && j < len(m.vars) ==> old(m.vars[i].Name) != old(m.vars[j].Name))) ==> forall(i, j, 0 <= i && i < j && j < len(m.vars) ==> m.vars[i].Name != m.vars[j].Name)
 //@   ensures not-taken: forall(k, 0 <= k && k < len(m.vars) ==> m.vars[k].Name != r)
@@ -205,22 +205,22 @@ package registry
 //@   axiom unsafe-package-path: global("go/types.Unsafe").Path() == "unsafe"
 //@   axiom strip-unsafe: strip("unsafe") == "unsafe" -- instance of stripVendorPath/post:no-vendor (verified, functional)
 //@   axiom refs-typeparam-tuple: (isType(t, *types.TypeParam) || isType(t, *types.Tuple)) ==> forall((*types.Package)(p), !refs(t, p))
-//@   loop 1 invariant inv: piInv(m, imports) && i >= 0
-//@   loop 1 invariant {C01,C02,C10,C11} covered: (as(t, *types.Named).Obj().Pkg() != nil ==> cov(imports, as(t, *types.Named).Obj().Pkg())) && forall((*types.Package)(p), k, 0 <= k && k < i && refs(as(t, *types.Named).TypeArgs().At(k), p) ==> cov(imports, p))
-//@   loop 2 invariant inv: piInv(m, imports) && i >= 0
-//@   loop 2 invariant {C01,C02,C10,C11} covered: (as(t, *types.Alias).Obj().Pkg() != nil ==> cov(imports, as(t, *types.Alias).Obj().Pkg())) && forall((*types.Package)(p), k, 0 <= k && k < i && refs(as(t, *types.Alias).TypeArgs().At(k), p) ==> cov(imports, p))
-//@   loop 3 invariant inv: piInv(m, imports) && i >= 0
-//@   loop 3 invariant {C01,C02,C10,C11} covered: forall((*types.Package)(p), k, 0 <= k && k < i && refs(as(t, *types.Union).Term(k).Type(), p) ==> cov(imports, p))
-//@   loop 4 invariant inv: piInv(m, imports) && i >= 0
-//@   loop 4 invariant {C01,C02,C10,C11} covered: forall((*types.Package)(p), k, 0 <= k && k < i && refs(as(t, *types.Signature).Params().At(k).Type(), p) ==> cov(imports, p))
-//@   loop 5 invariant inv: piInv(m, imports) && i >= 0
-//@   loop 5 invariant {C01,C02,C10,C11} covered: forall((*types.Package)(p), k, 0 <= k && k < as(t, *types.Signature).Params().Len() && refs(as(t, *types.Signature).Params().At(k).Type(), p) ==> cov(imports, p)) && forall((*types.Package)(p), k, 0 <= k && k < i && refs(as(t, *types.Signature).Results().At(k).Type(), p) ==> cov(imports, p))
-//@   loop 6 invariant inv: piInv(m, imports) && i >= 0
-//@   loop 6 invariant {C01,C02,C10,C11} covered: forall((*types.Package)(p), k, 0 <= k && k < i && refs(as(t, *types.Struct).Field(k).Type(), p) ==> cov(imports, p))
-//@   loop 7 invariant inv: piInv(m, imports) && i >= 0
-//@   loop 7 invariant {C01,C02,C10,C11} covered: forall((*types.Package)(p), k, 0 <= k && k < i && refs(as(t, *types.Interface).ExplicitMethod(k).Type(), p) ==> cov(imports, p))
-//@   loop 8 invariant inv: piInv(m, imports) && i >= 0
-//@   loop 8 invariant {C01,C02,C10,C11} covered: forall((*types.Package)(p), k, 0 <= k && k < as(t, *types.Interface).NumExplicitMethods() && refs(as(t, *types.Interface).ExplicitMethod(k).Type(), p) ==> cov(imports, p)) && forall((*types.Package)(p), k, 0 <= k && k < i && refs(as(t, *types.Interface).EmbeddedType(k), p) ==> cov(imports, p))
+//@   loop 1 invariant inv: piInv(m, imports) && ix >= 0
+//@   loop 1 invariant {C01,C02,C10,C11} covered: (as(t, *types.Named).Obj().Pkg() != nil ==> cov(imports, as(t, *types.Named).Obj().Pkg())) && forall((*types.Package)(p), k, 0 <= k && k < ix && refs(as(t, *types.Named).TypeArgs().At(k), p) ==> cov(imports, p))
+//@   loop 2 invariant inv: piInv(m, imports) && ix >= 0
+//@   loop 2 invariant {C01,C02,C10,C11} covered: (as(t, *types.Alias).Obj().Pkg() != nil ==> cov(imports, as(t, *types.Alias).Obj().Pkg())) && forall((*types.Package)(p), k, 0 <= k && k < ix && refs(as(t, *types.Alias).TypeArgs().At(k), p) ==> cov(imports, p))
+//@   loop 3 invariant inv: piInv(m, imports) && ix >= 0
+//@   loop 3 invariant {C01,C02,C10,C11} covered: forall((*types.Package)(p), k, 0 <= k && k < ix && refs(as(t, *types.Union).Term(k).Type(), p) ==> cov(imports, p))
+//@   loop 4 invariant inv: piInv(m, imports) && ix >= 0
+//@   loop 4 invariant {C01,C02,C10,C11} covered: forall((*types.Package)(p), k, 0 <= k && k < ix && refs(as(t, *types.Signature).Params().At(k).Type(), p) ==> cov(imports, p))
+//@   loop 5 invariant inv: piInv(m, imports) && ix >= 0
+//@   loop 5 invariant {C01,C02,C10,C11} covered: forall((*types.Package)(p), k, 0 <= k && k < as(t, *types.Signature).Params().Len() && refs(as(t, *types.Signature).Params().At(k).Type(), p) ==> cov(imports, p)) && forall((*types.Package)(p), k, 0 <= k && k < ix && refs(as(t, *types.Signature).Results().At(k).Type(), p) ==> cov(imports, p))
+//@   loop 6 invariant inv: piInv(m, imports) && ix >= 0
+//@   loop 6 invariant {C01,C02,C10,C11} covered: forall((*types.Package)(p), k, 0 <= k && k < ix && refs(as(t, *types.Struct).Field(k).Type(), p) ==> cov(imports, p))
+//@   loop 7 invariant inv: piInv(m, imports) && ix >= 0
+//@   loop 7 invariant {C01,C02,C10,C11} covered: forall((*types.Package)(p), k, 0 <= k && k < ix && refs(as(t, *types.Interface).ExplicitMethod(k).Type(), p) ==> cov(imports, p))
+//@   loop 8 invariant inv: piInv(m, imports) && ix >= 0
+//@   loop 8 invariant {C01,C02,C10,C11} covered: forall((*types.Package)(p), k, 0 <= k && k < as(t, *types.Interface).NumExplicitMethods() && refs(as(t, *types.Interface).ExplicitMethod(k).Type(), p) ==> cov(imports, p)) && forall((*types.Package)(p), k, 0 <= k && k < ix && refs(as(t, *types.Interface).EmbeddedType(k), p) ==> cov(imports, p))
 //@   ensures wf: wfK(m.registry)
 //@   ensures entries: entriesHavePkg(imports)
 //@   ensures packages-kept: forall((*Package)(q), old(allocated(q)) ==> q.pkg == old(q.pkg))
